@@ -148,6 +148,15 @@ func All() []Scenario {
 			func(s any, r Rec, t int) {
 				p := s.(*nsprovider.Provider)
 				r.Call(t, "set a P1", func() string { p.Add("a", &fakeVersions{"P1"}); return "" })
+				// a second reader, so that two lookups (of different namespaces) can overlap
+				r.Call(t, "get b", func() string {
+					c, err := p.ForNamespace("b")
+					if err != nil {
+						return "none"
+					}
+					v, _ := c.Current()
+					return v.Version()
+				})
 			},
 			func(s any, r Rec, t int) {
 				p := s.(*nsprovider.Provider)
